@@ -525,7 +525,7 @@ def gen_casts(rng: Rng) -> tuple[GB, dict]:
 
 
 def gen_swish(rng: Rng) -> tuple[GB, dict]:
-    gb = GB(opset=rng.choice([23, 24]))
+    gb = GB(opset=rng.choice([23, 24, 24]))
     x = gb.inp([2, 3])
     src = gb.node("Relu", [x]) if rng.chance(0.5) else x
     sg = gb.node("Sigmoid", [src])
@@ -563,12 +563,43 @@ FAMILIES = [
 ]
 
 
+def capture_in_body(gb: GB, rng: Rng, desc: dict) -> None:
+    """Generic perturbation for EVERY family: some intermediate value is read only inside an If body
+    (depth 1 or 2). A rewrite that removes or re-lays-out that value must notice the capture."""
+    produced = [o for n in gb.nodes for o in n.output if o and o not in gb.outputs]
+    if not produced:
+        return
+    m = rng.choice(produced)
+    cond = gb.const(np.asarray(True), name=gb.fresh("capcond"))
+
+    def leafs(tag):
+        t = helper.make_graph([helper.make_node("Identity", [m], [f"{tag}_t"])], f"{tag}_then", [],
+                              [helper.make_empty_tensor_value_info(f"{tag}_t")])
+        e = helper.make_graph([helper.make_node("Identity", [m], [f"{tag}_e"])], f"{tag}_else", [],
+                              [helper.make_empty_tensor_value_info(f"{tag}_e")])
+        return t, e
+
+    depth = 2 if rng.chance(0.4) else 1
+    tag = gb.fresh("cap")
+    t, e = leafs(tag + "a")
+    if depth == 2:
+        t2, e2 = leafs(tag + "b")
+        inner1 = helper.make_node("If", [cond], [f"{tag}_i1"], then_branch=t, else_branch=e)
+        inner2 = helper.make_node("If", [cond], [f"{tag}_i2"], then_branch=t2, else_branch=e2)
+        t = helper.make_graph([inner1], f"{tag}_ot", [], [helper.make_empty_tensor_value_info(f"{tag}_i1")])
+        e = helper.make_graph([inner2], f"{tag}_oe", [], [helper.make_empty_tensor_value_info(f"{tag}_i2")])
+    gb.out(gb.node("If", [cond], then_branch=t, else_branch=e))
+    desc.setdefault("guards", []).append(f"generic_capture_depth{depth}")
+
+
 def generate(rng: Rng):
     total = sum(w for _, w in FAMILIES)
     r = rng.randint(0, total - 1)
     for f, w in FAMILIES:
         if r < w:
             gb, desc = f(rng)
+            if rng.chance(0.12):
+                capture_in_body(gb, rng, desc)
             return gb.model(), desc
         r -= w
     raise AssertionError
